@@ -35,6 +35,36 @@ def ncpu():
         return 8
 
 
+def simple_rational(d: float, single: bool = False) -> Fraction:
+    """How every engine reads a floating-point literal: a simple rational (smallest denominator bound from a
+    fixed schedule) that rounds to the same float/double.  0.1 is 1/10, 0.3333333333333333 is 1/3, 0.125 is
+    1/8.  Both sides of every comparison read literals this way, so the rounding of a literal (as written,
+    or as produced by a constant folder) to its precision is never judged; arithmetic itself stays exact."""
+    import struct
+
+    if d != d or d in (float("inf"), float("-inf")):
+        return Fraction(0)
+    if d == 0:
+        return Fraction(0)
+
+    def rnd(x):
+        return struct.unpack("<f", struct.pack("<f", x))[0] if single else x
+
+    try:
+        want = rnd(d)
+    except OverflowError:
+        return Fraction(d)
+    f = Fraction(want)
+    for md in (1, 10, 100, 1000, 10**4, 10**5, 10**6, 10**8, 10**10, 10**12):
+        q = f.limit_denominator(md)
+        try:
+            if rnd(float(q)) == want:
+                return q
+        except OverflowError:
+            break
+    return f
+
+
 def sha256_of(path):
     h = hashlib.sha256()
     with open(path, "rb") as f:
